@@ -125,7 +125,7 @@ def rule_R1_R2(ctx):
     ctx.floor("R1", "parser token alternatives", ntok, TOKEN_FLOOR)
 
 
-def _skeleton_parser(program, g):
+def _skeleton_parser(program, g, mark_lists=False):
     """Top-level separator skeleton of a sequence grammar: string over H (value) and literal characters."""
     out = ""
     stars = 0
@@ -133,6 +133,16 @@ def _skeleton_parser(program, g):
         return None, 0
     for x in g[1]:
         k = x[0]
+        if k == "sub" and x[1] in program.bodies and "Option<u" in program.bodies[x[1]].local_ty(0):
+            # a field parser factored out into its own function is read through: `alt((tag("*"), number))` behind a name
+            try:
+                sg = G.parser_grammar(program, program.bodies[x[1]])
+                if sg[0] == "map" and sg[1][0] == "alt":
+                    sg = sg[1]
+                if sg[0] == "alt":
+                    x, k = sg, "alt"
+            except AnchorMissing:
+                pass
         if k == "lit":
             out += x[1]
         elif k in ("sub", "class"):
@@ -147,12 +157,12 @@ def _skeleton_parser(program, g):
                     stars += 1
         elif k in ("separated_list0", "separated_list1"):
             sep = x[1][1] if x[1][0] == "lit" else "?"
-            out += sep + "H"
+            out += ("\x00" if mark_lists and len(sep) == 1 else "") + sep + "H"
         elif k == "opt":
             inner = x[1]
             if inner[0] in ("separated_list0", "separated_list1"):
                 sep = inner[1][1] if inner[1][0] == "lit" else "?"
-                out += sep + "H"
+                out += ("\x00" if mark_lists and len(sep) == 1 else "") + sep + "H"
             else:
                 out += "H"
         else:
@@ -187,7 +197,8 @@ def rule_R1_composite(ctx):
         try:
             pb = P.fn("db_parse::" + fn)
             g = G.parser_grammar(P, pb)
-            ps, pstars = _skeleton_parser(P, g)
+            ps_marked, pstars = _skeleton_parser(P, g, mark_lists=True)
+            ps = ps_marked.replace("\x00", "") if ps_marked else ps_marked
             dbs = [b for b in P.bodies.values() if b.name == disp and b.kind == "AssocFn" and b.crate == "huginn_net_db"]
             if len(dbs) != 1:
                 raise AnchorMissing("%s: %d bodies" % (disp, len(dbs)))
@@ -198,7 +209,13 @@ def rule_R1_composite(ctx):
         if trunc or ds is None or ps is None:
             ctx.cannot("R1", "composite:" + fn, "skeleton not recovered (parser %r, display %r)" % (ps, ds), ctx.loc(pb))
             continue
-        ctx.check(ps == ds, "R1", "composite:" + fn, "field/separator skeleton `%s` on both sides" % ps,
+        # a list field `sepH` of the parser is matched by any of the ways a Display impl walks a list on its longest path:
+        # `,H` (separator written before every element but the first, one iteration seen), `H,H` (first element peeled off),
+        # `H` (join); everything else must agree literally
+        rx = "".join("(?:H?(?:%sH)*)" % re.escape(m.group(1)) if m.group(1) is not None else re.escape(m.group(0))
+                     for m in re.finditer(r"\x00(.)H|.", ps_marked, re.S)) if ps_marked else None
+        same = ps == ds or (rx is not None and re.fullmatch(rx, ds) is not None and ds.count("H") >= ps.count("H") - ps_marked.count("\x00"))
+        ctx.check(same, "R1", "composite:" + fn, "field/separator skeleton `%s` on both sides" % ps,
                   "parser expects `%s` but Display writes `%s` (H = a field value)" % (ps, ds), ctx.loc(dbs[0]))
         ctx.check(pstars == dstars, "R1", "composite:%s:wildcards" % fn, "%d `*` alternatives on both sides" % pstars,
                   "parser accepts %d `*` wildcards for optional numbers but Display can print %d" % (pstars, dstars), ctx.loc(dbs[0]))
